@@ -14,7 +14,7 @@ TRUSTED_BASE = [
     "Coq 8.16.1 kernel (coqc; vm_compute used in Examples / refutation witnesses; no native_compute)",
     "axioms: none - every property theorem is 'Closed under the global context' (Print Assumptions checked on every run)",
     "extraction to OCaml 4.13.1 with ExtrOcamlBasic only (bool, option, unit, list, prod, sumbool, sumor, andb, orb); nat/N/positive stay Coq datatypes; no Extract Constant of our own",
-    "OCaml driver ocaml/driver.ml (parsing, printing, generators) and Rust harness harness/ (op interpreter, ledger item, listener)",
+    "OCaml drivers ocaml/{driver,concdriver,concdriver2,concdriver3x,dropdriver}.ml (parsing, printing, generators) and Rust harness harness/ (op interpreter, ledger item, listener, scripted schedulers concrun*/droprun, probes)",
     "fact extractors tools/extract_facts.py (fail-closed parsers) and the verif-hooks twins in /repo/src/verif_hooks.rs",
     "modelled, not verified: Rust semantics of each function body (Model = transcription, validated by correspondence on every run); usize as unbounded nat with len <= isize::MAX; allocator / destructor glue / MaybeUninit as cells; C11 release/acquire as a view machine; mmap semantics; rustc trait solver as oracle for Send/Sync",
 ]
